@@ -67,6 +67,16 @@ CHECKS = {
         "torch hook dispatch trusted; one hook per module (interference between two hooks is explored in the thorough tier only "
         "if present); tensors outside the value alphabet not covered",
     ),
+    "C20": (
+        "exploration", "DESIGN.md §3 C20",
+        "complete enumeration of small finite domains (all rasters T<=6, all <=3-spike train pairs/triples, dyadic "
+        "interp/extrap grids) with brute-force references; parameter grids for the distributions",
+        "Inverse law for all 11 extrap/interp pairs on a dyadic grid, interp_linear bracket law, isi re-integration for all 2-train "
+        "rasters of length <=6 in both layouts, Victor-Purpura symmetry/triangle/identity/limits/value (brute-force matching "
+        "reference) for all pairs and triples over 26 trains x 5 costs, and density/CDF/moment/round-trip identities of "
+        "Poisson, Normal, LogNormal on parameter grids.",
+        "the distribution part is a grid, not a domain proof; degenerate linear-extrapolation ends excluded; float tolerances 1e-5..1e-3",
+    ),
 }
 
 PENDING_REASON = "check not built yet in this session (claimed in DESIGN.md; will move to checks when its exploration exists)"
